@@ -1,4 +1,4 @@
-(* NEEDS: Data/DataModel.vo Data/ConvertModel.vo Data/AccessorsModel.vo *)
+(* NEEDS: Data/DataModel.vo Data/ConvertModel.vo Data/AccessorsModel.vo Data/TwoObjModel.vo *)
 (* Extraction of the vnadata_t container model and of the vnadata_convert model (C15, C05).
    Only ExtrOcamlBasic's directives are in effect; nat, Z, string stay the extracted inductive
    types.  store_results / conv_results are kept as functions so that the (effectful, logging)
@@ -6,10 +6,10 @@
 Require Extraction.
 Require Import ExtrOcamlBasic.
 Require Import List ZArith String.
-Require Import LV.Data.DataModel LV.Data.ConvertModel LV.Data.AccessorsModel.
+Require Import LV.Data.DataModel LV.Data.ArraySpec LV.Data.ConvertModel LV.Data.AccessorsModel LV.Data.TwoObjModel.
 Extraction Language OCaml.
 Set Extraction KeepSingleton.
 Extraction NoInline store_results conv_results setup_out convert.
 Extraction "models_data.ml"
   mstep minit observe fixed as_found fname_str conv_spec vpt_code vpt_of_Z
-  p_alloc f_alloc m_alloc per_f sel put alloc_and_init type_name vd_alloc set_format_c f_new.
+  p_alloc f_alloc m_alloc per_f sel put kstep nput ninit alloc_and_init type_name vd_alloc set_format_c f_new.
